@@ -1,8 +1,8 @@
 package sym
 
 import (
-	"go/types"
 	"fmt"
+	"go/types"
 	"math"
 	"math/big"
 	"strconv"
@@ -148,6 +148,12 @@ func init() {
 		v := a[0].(IntV)
 		return ConstBig(ex.concretize(v, "verifConcretize"))
 	}
+	intercepts[apdP+"verifConcretizeBig"] = func(ex *Exec, a []Value, c *ssa.CallCommon) Value {
+		p := a[0].(PtrV)
+		v := ex.load(p).(IntV)
+		ex.store(p, ConstBig(ex.concretize(v, "verifConcretizeBig")))
+		return nil
+	}
 	intercepts[apdP+"verifKnownRegion"] = func(ex *Exec, a []Value, c *ssa.CallCommon) Value {
 		id, _ := a[0].(StrV).Concrete()
 		t := a[1].(BoolV).T
@@ -218,8 +224,12 @@ func init() {
 	regA := func(name string, f interceptFn) { levelAIntercepts[bigM+name] = f }
 
 	regA("Set", func(ex *Exec, a []Value, c *ssa.CallCommon) Value { return setBig(ex, a[0], bigArg(ex, a[1])) })
-	regA("SetInt64", func(ex *Exec, a []Value, c *ssa.CallCommon) Value { return setBig(ex, a[0], unbounded(ex, a[1].(IntV))) })
-	regA("SetUint64", func(ex *Exec, a []Value, c *ssa.CallCommon) Value { return setBig(ex, a[0], unbounded(ex, a[1].(IntV))) })
+	regA("SetInt64", func(ex *Exec, a []Value, c *ssa.CallCommon) Value {
+		return setBig(ex, a[0], unbounded(ex, a[1].(IntV)))
+	})
+	regA("SetUint64", func(ex *Exec, a []Value, c *ssa.CallCommon) Value {
+		return setBig(ex, a[0], unbounded(ex, a[1].(IntV)))
+	})
 	regA("Add", func(ex *Exec, a []Value, c *ssa.CallCommon) Value {
 		x, y := bigArg(ex, a[1]), bigArg(ex, a[2])
 		return setBig(ex, a[0], ex.bigAdd(x, y))
@@ -232,8 +242,12 @@ func init() {
 		x, y := bigArg(ex, a[1]), bigArg(ex, a[2])
 		return setBig(ex, a[0], ex.bigMul(x, y))
 	})
-	regA("Neg", func(ex *Exec, a []Value, c *ssa.CallCommon) Value { return setBig(ex, a[0], ex.bigNeg(bigArg(ex, a[1]))) })
-	regA("Abs", func(ex *Exec, a []Value, c *ssa.CallCommon) Value { return setBig(ex, a[0], ex.bigAbs(bigArg(ex, a[1]))) })
+	regA("Neg", func(ex *Exec, a []Value, c *ssa.CallCommon) Value {
+		return setBig(ex, a[0], ex.bigNeg(bigArg(ex, a[1])))
+	})
+	regA("Abs", func(ex *Exec, a []Value, c *ssa.CallCommon) Value {
+		return setBig(ex, a[0], ex.bigAbs(bigArg(ex, a[1])))
+	})
 	regA("Quo", func(ex *Exec, a []Value, c *ssa.CallCommon) Value {
 		q, _ := ex.bigQuoRem(bigArg(ex, a[1]), bigArg(ex, a[2]))
 		return setBig(ex, a[0], q)
@@ -536,6 +550,14 @@ func (ex *Exec) bigQuoRem(x, y IntV) (IntV, IntV) {
 		return IntV{T: q, Lo: qlo, Hi: qhi}, IntV{T: r, Lo: rlo, Hi: rhi}
 	}
 	// symbolic divisor: fresh quotient and remainder with the defining relation
+	// (one pair per (dividend, divisor) on a path: Euclidean division is a function)
+	if ex.divMemo == nil {
+		ex.divMemo = map[[2]*Term][2]IntV{}
+	}
+	if qr, ok := ex.divMemo[[2]*Term{x.T, y.T}]; ok {
+		return qr[0], qr[1]
+	}
+	defer func() {}()
 	q := ex.freshVar("q", SInt)
 	r := ex.freshVar("r", SInt)
 	ex.assumeT(Eq(x.T, Add(Mul(q, y.T), r)))
@@ -554,7 +576,9 @@ func (ex *Exec) bigQuoRem(x, y IntV) (IntV, IntV) {
 		ex.assumeT(Le(IntConst(qlo), q))
 		ex.assumeT(Le(q, IntConst(qhi)))
 	}
-	return IntV{T: q, Lo: qlo, Hi: qhi}, IntV{T: r, Lo: rlo, Hi: rhi}
+	qv, rv := IntV{T: q, Lo: qlo, Hi: qhi}, IntV{T: r, Lo: rlo, Hi: rhi}
+	ex.divMemo[[2]*Term{x.T, y.T}] = [2]IntV{qv, rv}
+	return qv, rv
 }
 
 // forkLen forks on the smallest n with |x| < base^n (n = 0 for x == 0): bit length (base 2),
